@@ -4,7 +4,7 @@
    state reached so far. *)
 From AF Require Import Lib.Bytes Lib.Path Lib.Ops Gen.Consts Model.MemFile Model.MemFs Model.WfOps
   Proofs.MemFsPath Proofs.MemFsBasics Proofs.MemFsWF Proofs.MemFsStep Proofs.MemFsRename Proofs.MemFsInv
-  Proofs.MemFsNoop.
+  Proofs.MemFsNoop Proofs.MemFsList.
 Local Open Scope Z_scope.
 
 (* 1. The per-directory child index mirrors the path map after every well-formed sequence
@@ -36,6 +36,46 @@ Theorem C01_failed_call_is_noop : forall s o, WF s -> wf_op s o = true ->
   res_is_err (snd (m_step s o)) = true -> fs_view (fst (m_step s o)) = fs_view s.
 Proof. exact failed_call_is_noop. Qed.
 Print Assumptions C01_failed_call_is_noop.
+
+(* 3. Listing = children of the map.  Opening a directory d and reading the fresh handle with
+      Readdir(-1) / Readdirnames(-1) returns exactly the base names of the keys of the path map whose
+      parent (filepath.Dir) is d — each once, in strictly ascending order (is_listing, MemFsList.v). *)
+Theorem C01_listing_is_children : forall s d r n,
+  WF s -> canon d -> lookup s d = Some r -> get_node s r = Some n -> ndir n = true ->
+  let s1 := fst (m_step s (Open d)) in
+  let h := length (mhandles s) in
+  snd (m_step s (Open d)) = RHandle h /\
+  exists infos,
+    snd (m_step s1 (HReaddir h (-1))) = RInfos infos None /\
+    snd (m_step s1 (HReaddirnames h (-1))) = RNames (map fi_name infos) None /\
+    is_listing s d (map fi_name infos).
+Proof. exact listing_fresh_handle. Qed.
+Print Assumptions C01_listing_is_children.
+
+(* Reading the same handle in pages of ANY positive sizes (Readdir if nm = false, Readdirnames if
+   nm = true; no other call in between) returns consecutive slices whose concatenation is the
+   whole listing, and the next page reports io.EOF with no entries. *)
+Theorem C01_readdir_pages_partition : forall nm ns s i h n cnt,
+  nth_error (mhandles s) i = Some h -> get_node s (href h) = Some n -> ndir n = true -> hrdc h = 0 ->
+  Forall (fun c => 0 < c) ns -> 0 < cnt -> (length (dir_names s n) <= Z.to_nat (zsum ns))%nat ->
+  let run := run_steps m_step s (map (rdop nm i) ns) in
+  concat (map names_of (snd run)) = dir_names s n /\
+  snd (m_step (fst run) (rdop nm i cnt)) = page_res nm [] (Some (E KEOF)).
+Proof. exact pages_partition. Qed.
+Print Assumptions C01_readdir_pages_partition.
+
+(* ... and any prefix of pages returns the corresponding prefix of the listing (from any offset) *)
+Theorem C01_readdir_pages_prefix : forall nm ns s i h n,
+  nth_error (mhandles s) i = Some h -> get_node s (href h) = Some n -> ndir n = true -> 0 <= hrdc h ->
+  Forall (fun c => 0 < c) ns ->
+  let M := skipn (Z.to_nat (hrdc h)) (dir_infos s n) in
+  let s' := fst (run_steps m_step s (map (rdop nm i) ns)) in
+  concat (map names_of (snd (run_steps m_step s (map (rdop nm i) ns)))) = map fi_name (firstn (Z.to_nat (zsum ns)) M) /\
+  fs_view s' = fs_view s /\
+  exists h', nth_error (mhandles s') i = Some h' /\ href h' = href h /\
+             hrdc h' = hrdc h + Z.of_nat (Nat.min (length M) (Z.to_nat (zsum ns))).
+Proof. exact readdir_pages. Qed.
+Print Assumptions C01_readdir_pages_prefix.
 
 (* ---------- non-vacuity ---------- *)
 Local Open Scope N_scope.
@@ -74,3 +114,13 @@ Example C01_ex_failures :
      HWrite 0 [1]; HWrite 1 [1]; HSeek 1 (-5)%Z 0%Z; HTruncate 1 3%Z; Stat [47;97;47;98;47;99]]
   = repeat (true, true, true) 9.
 Proof. vm_compute. reflexivity. Qed.
+
+(* a directory with three children read in pages 2+1 and then EOF; Readdirnames(-1) on a fresh handle *)
+Definition c01_demo3 : list op :=
+  [ Mkdir [47;100] 493%Z; Create [47;100;47;99]; Create [47;100;47;97]; Mkdir [47;100;47;98] 493%Z;
+    Open [47;100]; HReaddirnames 2 2%Z; HReaddirnames 2 1%Z; HReaddirnames 2 5%Z;
+    Open [47;100]; HReaddirnames 3 (-1)%Z ].
+Example C01_ex_pages : wf_seq m_init c01_demo3 = true /\
+  skipn 5 (snd (run_steps m_step m_init c01_demo3)) =
+  [ RNames [[97];[98]] None; RNames [[99]] None; RNames [] (Some (E KEOF)); RHandle 3; RNames [[97];[98];[99]] None ].
+Proof. vm_compute. auto. Qed.
